@@ -10,7 +10,8 @@
 (* GenMode "c10part": honest wire; the whole product of the constants.     *)
 (*   Both c10 modes restrict the client / server authentication level to   *)
 (*   IOEnv.C10_CAUTH / IOEnv.C10_SAUTH ("*" = any), so that the driver can *)
-(*   run partitions as parallel TLC processes.                             *)
+(*   run partitions as parallel TLC processes, and both encryption levels  *)
+(*   to IOEnv.C10_ENC ("*" = any; used by the small alias-name sweep).     *)
 (*   For both, every TERMINAL state is printed once: the configuration,    *)
 (*   the independent table Expected, and what the model's two ends report. *)
 (*   No history variable is needed: the runs are deterministic up to the   *)
@@ -37,10 +38,16 @@ NoRelay == [act |-> "none", d |-> "", n |-> 0, k |-> "", part |-> ""]
 
 Rows == ndJsonDeserialize(IOEnv.C10_ROWS)
 
+(* the encryption policy pairs whose handshakes the C04 replay runs (the model
+   check MC_C04*.cfg covers the whole product of the CEnc / SEnc constants)   *)
+C04EncPairs == { <<"REQUIRED", "REQUIRED">>, <<"OPTIONAL", "OPTIONAL">>, <<"PREFERRED", "OPTIONAL">> }
+
 GenInit ==
   /\ Init
   /\ (GenMode # "c04") => /\ (IOEnv.C10_CAUTH = "*" \/ cfg.c.auth = IOEnv.C10_CAUTH)
                           /\ (IOEnv.C10_SAUTH = "*" \/ cfg.s.auth = IOEnv.C10_SAUTH)
+                          /\ (IOEnv.C10_ENC = "*" \/ (cfg.c.enc = IOEnv.C10_ENC /\ cfg.s.enc = IOEnv.C10_ENC))
+  /\ (GenMode = "c04") => <<cfg.c.enc, cfg.s.enc>> \in C04EncPairs
   /\ relayRec = NoRelay
   /\ fresh = "none"
 
@@ -118,7 +125,8 @@ C10Rec == [cfg |-> cfg, exp |-> Exp, c |-> Proj(outcome["c"]), s |-> Proj(outcom
            agree |-> (outcome["c"].sid = outcome["s"].sid /\ outcome["c"].key = outcome["s"].key),
            ran |-> ran, app |-> appAccepted]
 
-C04Rec == [shape |-> shape, methods |-> cfg.c.methods, relay |-> relayRec,
+C04Rec == [shape |-> shape, methods |-> cfg.c.methods, cenc |-> cfg.c.enc, senc |-> cfg.s.enc,
+           relay |-> relayRec,
            c |-> Proj(outcome["c"]), s |-> Proj(outcome["s"]),
            app |-> appAccepted, conf |-> confirmed, nsent |-> nsent,
            clear |-> [c2s |-> Len(sentClear["c"]), s2c |-> Len(sentClear["s"])]]
